@@ -403,6 +403,16 @@ func isAtomicBool(args []Val, f *Frame, x *Exec) bool { return false }
 func (x *Exec) atomicObj(cfg *Config, f *Frame, args []Val, pos token.Pos) (Term, bool) {
 	obj := x.tv(args[0])
 	x.nilcheck(cfg, obj, "atomic value", pos)
+	x.curProto, x.curProtoOrg = nil, nil
+	if tv, ok := args[0].(TV); ok && tv.Org != nil {
+		if pd := x.protoFor(tv.Org); pd != nil {
+			_, isBool := isAtomicType(func() types.Type { _, t := fieldNameOf(tv.Org.STyp, tv.Org.Field); return t }())
+			x.atomicArr(cfg.st, isBool)
+			x.protoInterfere(cfg, pd, tv.Org)
+			x.curProto, x.curProtoOrg = pd, tv.Org
+			return obj, isBool
+		}
+	}
 	isBool := false
 	in := f.block.Instrs[f.idx]
 	if ci, ok := in.(ssa.CallInstruction); ok {
@@ -427,21 +437,27 @@ func (x *Exec) atomicWrite(cfg *Config, obj Term, isBool bool, nv Term, pos toke
 		x.oblige(cfg, "atomic-write-under", "atomic write (that changes the value) while holding "+x.c.Options["atomic-stable-under"], Or(st, Eq(old, nv)), nil, pos)
 	}
 	cfg.st.heap[name] = Store(arr, obj, nv)
+	if x.curProto != nil {
+		x.protoStep(cfg, x.curProto, x.curProtoOrg, x.curAtomicOp, old, nv, pos)
+	}
 }
 
 func mAtomicLoad(x *Exec, cfg *Config, f *Frame, args []Val, pos token.Pos) (Val, []*Config) {
+	x.curAtomicOp = "Load"
 	obj, b := x.atomicObj(cfg, f, args, pos)
 	_, arr := x.atomicArr(cfg.st, b)
 	return TV{T: Select(arr, obj)}, nil
 }
 
 func mAtomicStore(x *Exec, cfg *Config, f *Frame, args []Val, pos token.Pos) (Val, []*Config) {
+	x.curAtomicOp = "Store"
 	obj, b := x.atomicObj(cfg, f, args, pos)
 	x.atomicWrite(cfg, obj, b, x.tv(args[1]), pos)
 	return TupV{}, nil
 }
 
 func mAtomicAdd(x *Exec, cfg *Config, f *Frame, args []Val, pos token.Pos) (Val, []*Config) {
+	x.curAtomicOp = "Add"
 	obj, b := x.atomicObj(cfg, f, args, pos)
 	_, arr := x.atomicArr(cfg.st, b)
 	nv := Add(Select(arr, obj), x.tv(args[1]))
@@ -450,6 +466,7 @@ func mAtomicAdd(x *Exec, cfg *Config, f *Frame, args []Val, pos token.Pos) (Val,
 }
 
 func mAtomicSwap(x *Exec, cfg *Config, f *Frame, args []Val, pos token.Pos) (Val, []*Config) {
+	x.curAtomicOp = "Swap"
 	obj, b := x.atomicObj(cfg, f, args, pos)
 	_, arr := x.atomicArr(cfg.st, b)
 	old := Select(arr, obj)
@@ -458,6 +475,7 @@ func mAtomicSwap(x *Exec, cfg *Config, f *Frame, args []Val, pos token.Pos) (Val
 }
 
 func mAtomicCAS(x *Exec, cfg *Config, f *Frame, args []Val, pos token.Pos) (Val, []*Config) {
+	x.curAtomicOp = "CompareAndSwap"
 	obj, b := x.atomicObj(cfg, f, args, pos)
 	_, arr := x.atomicArr(cfg.st, b)
 	cur := Select(arr, obj)
